@@ -139,6 +139,57 @@ Section Count.
   Qed.
 End Count.
 
+(* ---------- the helper functions never run out of fuel (they have none) ---------- *)
+Lemma of_option_not_fuel {A} (o : option A) : of_option o <> Fuel.
+Proof. destruct o; discriminate. Qed.
+
+Lemma l2_entry_not_fuel q t i : l2_entry q t i <> Fuel.
+Proof. apply of_option_not_fuel. Qed.
+
+Lemma l2_bitmap_not_fuel q t i : l2_bitmap q t i <> Fuel.
+Proof. unfold l2_bitmap. destruct (g_has_subclusters q); [apply of_option_not_fuel|discriminate]. Qed.
+
+Lemma gst_not_fuel q e bm s : get_subcluster_type q e bm s <> Fuel.
+Proof.
+  unfold get_subcluster_type. cbv zeta.
+  repeat match goal with |- context [if ?c then _ else _] => destruct c end; discriminate.
+Qed.
+
+Lemma grt_not_fuel q e bm s : get_subcluster_range_type q e bm s <> Fuel.
+Proof.
+  unfold get_subcluster_range_type. pose proof (gst_not_fuel q e bm s) as H.
+  destruct (get_subcluster_type q e bm s); cbn [bind]; try discriminate; try congruence.
+  cbv zeta. repeat match goal with |- context [if ?c then _ else _] => destruct c end; discriminate.
+Qed.
+
+Lemma ccs_loop_not_fuel q t l2i k : forall i count ety eoff chk,
+  ccs_loop q t l2i k i count ety eoff chk <> Fuel.
+Proof.
+  induction k as [|k IH]; intros; cbn [ccs_loop]; [discriminate|].
+  pose proof (l2_entry_not_fuel q t (l2i + i)) as H1.
+  destruct (l2_entry q t (l2i + i)) as [e| |]; cbn [bind]; try discriminate; try congruence.
+  pose proof (l2_bitmap_not_fuel q t (l2i + i)) as H2.
+  destruct (l2_bitmap q t (l2i + i)) as [bm| |]; cbn [bind]; try discriminate; try congruence.
+  pose proof (grt_not_fuel q e bm 0) as H3.
+  destruct (get_subcluster_range_type q e bm 0) as [[ty n]| |]; cbn [bind]; try discriminate; try congruence.
+  destruct (negb (ty =? ety)); [discriminate|].
+  destruct (chk && _); [discriminate|].
+  destruct (0 + n <? g_subclusters_per_cluster q); [discriminate|]. apply IH.
+Qed.
+
+Lemma ccs_not_fuel q nb sc t l2i : count_contiguous_subclusters q nb sc t l2i <> Fuel.
+Proof.
+  unfold count_contiguous_subclusters. destruct (nb <=? 0); [discriminate|].
+  pose proof (l2_entry_not_fuel q t l2i) as H1.
+  destruct (l2_entry q t l2i) as [e| |]; cbn [bind]; try discriminate; try congruence.
+  pose proof (l2_bitmap_not_fuel q t l2i) as H2.
+  destruct (l2_bitmap q t l2i) as [bm| |]; cbn [bind]; try discriminate; try congruence.
+  pose proof (grt_not_fuel q e bm sc) as H3.
+  destruct (get_subcluster_range_type q e bm sc) as [[ty n]| |]; cbn [bind]; try discriminate; try congruence.
+  destruct (ty =? T_COMPRESSED); [discriminate|].
+  destruct (sc + n <? g_subclusters_per_cluster q); [discriminate|]. apply ccs_loop_not_fuel.
+Qed.
+
 (* ================================================================== *)
 (* H. the opened image and the specification's view of it             *)
 (* ================================================================== *)
@@ -609,4 +660,202 @@ Section Image.
       rewrite (gk_scb _ _ _ _ G). fold B. rewrite Z.shiftl_mul_pow2 by exact HB.
       exact Hseg.
   Qed.
+
+  (* progress: whatever the tables hold, every iteration consumes at least one byte or raises *)
+  Theorem yield_runs_fuel fuel : forall offset length,
+    length < Z.of_nat fuel -> yield_runs im fuel offset length <> Fuel.
+  Proof.
+    pose proof geo_ok as G. pose proof B_pos as HB.
+    induction fuel as [|fuel IH]; intros offset length Hf.
+    - cbn [yield_runs]. destruct (Z.leb_spec length 0); [discriminate|lia].
+    - cbn [yield_runs]. destruct (Z.leb_spec length 0) as [|Hlen]; [discriminate|].
+      cbv zeta. fold q.
+      destruct (step_indices offset length) as (Hi1 & Hi2 & Hi3 & Hi4 & Hi5).
+      rewrite Hi5. rewrite ?Hi1, ?Hi2, ?Hi3, ?Hi4.
+      destruct hd_fields as (_ & Hl1s & _). rewrite Hl1s.
+      set (oic := offset mod 2 ^ cb) in *.
+      set (l2i := (offset / 2 ^ cb) mod 2 ^ L) in *.
+      set (l1i := offset / 2 ^ cb / 2 ^ L) in *.
+      set (bn := Z.min (length + oic) ((2 ^ L - l2i) * 2 ^ cb)) in *.
+      assert (Hemit : forall (r : run) rc, 0 < rc ->
+                (do rest <- yield_runs im fuel (offset + rc) (length - rc); Ok (r :: rest)) <> Fuel).
+      { intros r rc Hrc. specialize (IH (offset + rc) (length - rc) ltac:(lia)).
+        destruct (yield_runs im fuel (offset + rc) (length - rc)); cbn [bind]; try discriminate; congruence. }
+      destruct (Z.gtb_spec l1i (h_l1_size (i_hdr im))) as [Hgt|Hle].
+      { apply Hemit. destruct (unalloc_step offset length Hlen (or_introl (Hl1 l1i ltac:(lia)))) as [Hrc _].
+        fold oic l2i bn in Hrc. lia. }
+      destruct (i_l1 im l1i) as [l1e|] eqn:Hl1e; cbn [of_option bind]; [|discriminate].
+      destruct (Z.eqb_spec (Z.land l1e qcow2_L1E_OFFSET_MASK) 0) as [Hz|Hnz].
+      { apply Hemit. destruct (unalloc_step offset length Hlen
+                    (or_intror (ex_intro _ l1e (conj Hl1e Hz)))) as [Hrc _].
+        fold oic l2i bn in Hrc. lia. }
+      set (t := i_l2 im (Z.land l1e qcow2_L1E_OFFSET_MASK)).
+      pose proof (l2_entry_not_fuel q t l2i) as H1.
+      destruct (l2_entry q t l2i) as [e0| |] eqn:He0; cbn [bind]; try discriminate; try congruence.
+      pose proof (l2_bitmap_not_fuel q t l2i) as H2.
+      destruct (l2_bitmap q t l2i) as [bm0| |] eqn:Hbm0; cbn [bind]; try discriminate; try congruence.
+      pose proof (gst_not_fuel q e0 bm0 ((offset / 2 ^ B) mod S)) as H3.
+      destruct (get_subcluster_type q e0 bm0 ((offset / 2 ^ B) mod S)) as [ty| |] eqn:Hty; cbn [bind];
+        try discriminate; try congruence.
+      pose proof (ccs_not_fuel q (size_to_clusters q bn) ((offset / 2 ^ B) mod S) t l2i) as H4.
+      destruct (count_contiguous_subclusters q (size_to_clusters q bn) ((offset / 2 ^ B) mod S) t l2i)
+        as [count| |] eqn:Hcount; cbn [bind]; try discriminate; try congruence.
+      apply Hemit.
+      destruct (entry_step offset length Hlen l1e e0 bm0 ty count Hl1e Hnz He0 Hbm0 Hty Hcount) as [Hrc _].
+      rewrite (gk_scb _ _ _ _ G). rewrite Z.shiftl_mul_pow2 by exact HB.
+      fold oic l2i bn in Hrc. change (scb cb ext) with B. apply Hrc.
+  Qed.
 End Image.
+
+(* ================================================================== *)
+(* K. top-level statements                                            *)
+(* ================================================================== *)
+(* what the reader needs of the in-memory image: a supported header and an L1 list of l1_size
+   entries.  Nothing is assumed about table CONTENTS here. *)
+Definition wf_image (im : image) : Prop :=
+  (h_version (i_hdr im) = 2 \/ h_version (i_hdr im) = 3) /\
+  9 <= h_cluster_bits (i_hdr im) <= 21 /\
+  (forall i, h_l1_size (i_hdr im) <= i -> i_l1 im i = None).
+
+Theorem read_runs_correct im fuel off len p :
+  wf_image im -> read_runs im fuel off len = Ok p ->
+  srcs_of p = map (guest_src im) (zseq off len).
+Proof.
+  intros (Hv & Hcb & Hl1) Hrun. unfold read_runs in Hrun.
+  apply bind_ok in Hrun. destruct Hrun as (runs & Hruns & Hrun). apply ok_inj_gen in Hrun. subst p.
+  exact (yield_runs_correct im Hv Hcb Hl1 fuel off len runs Hruns).
+Qed.
+
+Theorem read_runs_progress im fuel off len :
+  wf_image im -> len < Z.of_nat fuel -> read_runs im fuel off len <> Fuel.
+Proof.
+  intros (Hv & Hcb & Hl1) Hf. unfold read_runs.
+  pose proof (yield_runs_fuel im Hv Hcb Hl1 fuel off len Hf) as H.
+  destruct (yield_runs im fuel off len); cbn [bind]; try discriminate; congruence.
+Qed.
+
+(* QCow2._read: the clamped back end of the stream *)
+Theorem qcow2_read_correct im fuel off len p :
+  wf_image im -> qcow2_read im fuel off len = Ok p ->
+  srcs_of p = map (guest_src im) (zseq off (Z.min len (size_of im - off))).
+Proof. intros Hwf. unfold qcow2_read. apply read_runs_correct. exact Hwf. Qed.
+
+Theorem qcow2_read_progress im fuel off len :
+  wf_image im -> Z.min len (size_of im - off) < Z.of_nat fuel -> qcow2_read im fuel off len <> Fuel.
+Proof. intros Hwf Hf. unfold qcow2_read. apply read_runs_progress; assumption. Qed.
+
+(* bytes, for every content of image file, data file, backing image and every inflate function *)
+Theorem qcow2_read_bytes {Bt} (zero : Bt) file data parent infl im fuel off len p :
+  wf_image im -> qcow2_read im fuel off len = Ok p ->
+  denote zero file data parent infl p =
+  map (fun o => byte_of zero file data parent infl (guest_src im o)) (zseq off (Z.min len (size_of im - off))).
+Proof. intros Hwf Hrun. apply denote_of_srcs. eapply qcow2_read_correct; eassumption. Qed.
+
+(* ---------- _read_compressed: the descriptor is decoded as the specification says ---------- *)
+Theorem comp_decode_spec q cb ext df d :
+  geom_ok q cb ext df -> 9 <= cb <= 21 ->
+  comp_coffset q d = desc_offset cb d /\ comp_csize q d = desc_size cb d /\
+  g_csize_shift q + (cb - 8) = 62.
+Proof.
+  intros G Hcb. unfold comp_csize, comp_coffset, desc_offset, desc_size.
+  rewrite (gk_com _ _ _ _ G), (gk_csh _ _ _ _ G), (gk_csm _ _ _ _ G).
+  rewrite !land_ones_mod by lia. rewrite shiftr_div by lia.
+  change 511 with (2 ^ 9 - 1). rewrite land_ones_mod by lia.
+  change qcow2_QCOW2_COMPRESSED_SECTOR_SIZE with 512. change (2 ^ 9) with 512. cbv zeta.
+  split; [reflexivity|]. split; [reflexivity|lia].
+Qed.
+
+(* descriptor encode/decode round trip: offset below 2^(70-cb), sector count below 2^(cb-8) *)
+Theorem desc_roundtrip cb coff nsec :
+  9 <= cb <= 21 -> 0 <= coff < 2 ^ (70 - cb) -> 0 <= nsec < 2 ^ (cb - 8) ->
+  let d := coff + nsec * 2 ^ (70 - cb) in
+  0 <= d < 2 ^ 62 /\ desc_offset cb d = coff /\ desc_size cb d = (nsec + 1) * 512 - coff mod 512.
+Proof.
+  intros Hcb Hc Hn d.
+  assert (Hp : 0 < 2 ^ (70 - cb)) by (apply pow2_pos; lia).
+  assert (H62 : 2 ^ 62 = 2 ^ (cb - 8) * 2 ^ (70 - cb)) by (rewrite <- Z.pow_add_r by lia; f_equal; lia).
+  assert (Hoff : d mod 2 ^ (70 - cb) = coff).
+  { unfold d. rewrite Z.add_comm. apply mod_mul_add; lia. }
+  assert (Hq : d / 2 ^ (70 - cb) = nsec).
+  { unfold d. rewrite Z.add_comm. apply div_mul_add; lia. }
+  split; [unfold d; nia|]. unfold desc_offset, desc_size. cbv zeta. rewrite Hoff, Hq.
+  split; [reflexivity|]. rewrite Z.mod_small by lia. reflexivity.
+Qed.
+
+(* ---------- version-2 headers: the version-3 fields do not exist ---------- *)
+Definition same_v2_part (h h' : hdr) : Prop :=
+  h_magic h = h_magic h' /\ h_version h = h_version h' /\
+  h_backing_file_offset h = h_backing_file_offset h' /\ h_backing_file_size h = h_backing_file_size h' /\
+  h_cluster_bits h = h_cluster_bits h' /\ h_size h = h_size h' /\ h_crypt_method h = h_crypt_method h' /\
+  h_l1_size h = h_l1_size h' /\ h_l1_table_offset h = h_l1_table_offset h' /\
+  h_refcount_table_offset h = h_refcount_table_offset h' /\
+  h_refcount_table_clusters h = h_refcount_table_clusters h' /\
+  h_nb_snapshots h = h_nb_snapshots h' /\ h_snapshots_offset h = h_snapshots_offset h'.
+
+Theorem v2_fields_ignored h h' :
+  h_version h = 2 -> same_v2_part h h' -> v2_fix h = v2_fix h'.
+Proof.
+  intros H2 S. destruct h, h'. unfold same_v2_part in S. cbn in *.
+  destruct S as (? & ? & ? & ? & ? & ? & ? & ? & ? & ? & ? & ? & ?). subst.
+  unfold v2_fix. cbn. reflexivity.
+Qed.
+
+Corollary v2_geometry_ignores_v3_fields h h' :
+  h_version h = 2 -> same_v2_part h h' ->
+  open_geom (v2_fix h) = open_geom (v2_fix h') /\ h_header_length (v2_fix h) = 72 /\
+  has_subclusters (v2_fix h) = false /\ has_data_file (v2_fix h) = false.
+Proof.
+  intros H2 S. rewrite (v2_fields_ignored h h' H2 S). split; [reflexivity|].
+  assert (H2' : h_version h' = 2) by (destruct S as (_ & <- & _); exact H2).
+  unfold v2_fix. rewrite H2'. cbn. repeat split; reflexivity.
+Qed.
+
+(* ---------- non-vacuity: a 3-cluster extended-L2 image and a 70-cluster image over two L2 tables ---------- *)
+Definition ex_hdr (version cb size l1_size feats hl : Z) : hdr :=
+  {| h_magic := 1363560955; h_version := version; h_backing_file_offset := 0; h_backing_file_size := 0;
+     h_cluster_bits := cb; h_size := size; h_crypt_method := 0; h_l1_size := l1_size; h_l1_table_offset := 196608;
+     h_refcount_table_offset := 65536; h_refcount_table_clusters := 1; h_nb_snapshots := 0; h_snapshots_offset := 0;
+     h_incompatible_features := feats; h_compatible_features := 0; h_autoclear_features := 0; h_refcount_order := 4;
+     h_header_length := hl; h_compression_type := 0 |}.
+
+(* extended L2, 64 KiB clusters (2 KiB sub-clusters): cluster 0 has sub-clusters 0-3 allocated and 8-15 zero,
+   cluster 1 is fully allocated and contiguous with cluster 0, cluster 2 is absent *)
+Definition ex_ext : image :=
+  {| i_hdr := ex_hdr 3 16 (3 * 65536) 1 16 112; i_backing := true;
+     i_l1 := tbl [(0, 9223372036854775808 + 262144)] 0 1;
+     i_l2 := tbl2 [(262144, tbl [(0, 9223372036854775808 + 327680); (1, 15 + 65280 * 4294967296);
+                                 (2, 9223372036854775808 + 393216); (3, 4294967295)] 0 8192)] |}.
+
+Example ex_ext_wf : wf_image ex_ext.
+Proof.
+  split; [right; reflexivity|]. split; [vm_compute; split; discriminate|].
+  intros i Hi. cbn in Hi. unfold ex_ext, i_l1, tbl.
+  destruct (Z.leb_spec 0 i); cbn [andb]; [|reflexivity].
+  destruct (Z.ltb_spec i 1); [lia|reflexivity].
+Qed.
+
+Example ex_ext_read :
+  qcow2_read ex_ext 100 1000 (3 * 65536 - 1000) =
+  Ok [SFile 328680 7192; SParent 8192 8192; SZero 16384; SParent 32768 32768; SFile 393216 65536; SParent 131072 65536].
+Proof. vm_compute. reflexivity. Qed.
+
+(* standard L2, 512-byte clusters, 70 clusters: two L2 tables (64 entries each), stored in reverse order, a
+   compressed cluster, a zero cluster and a run that is contiguous across the L2-table boundary *)
+Definition ex_std : image :=
+  {| i_hdr := ex_hdr 2 9 (70 * 512 - 100) 2 18446744073709551615 4294967295; i_backing := false;
+     i_l1 := tbl [(0, 4096); (1, 3072)] 0 2;
+     i_l2 := tbl2 [(4096, tbl [(0, 4611686018427387904 + 20000); (1, 1); (62, 8192); (63, 8704)] 0 64);
+                   (3072, tbl [(0, 9216); (1, 9728 + 9223372036854775808)] 0 64)] |}.
+
+Example ex_std_wf : wf_image ex_std.
+Proof.
+  split; [left; reflexivity|]. split; [vm_compute; split; discriminate|].
+  intros i Hi. cbn in Hi. unfold ex_std, i_l1, tbl.
+  destruct (Z.leb_spec 0 i); cbn [andb]; [|reflexivity].
+  destruct (Z.ltb_spec i 2); [lia|reflexivity].
+Qed.
+
+Example ex_std_read :
+  qcow2_read ex_std 100 0 100000 =
+  Ok [SInfl 20000 0 512; SZero 512; SZero 30720; SFile 8192 1024; SFile 9216 1024; SZero 1948].
+Proof. vm_compute. reflexivity. Qed.
